@@ -102,7 +102,7 @@ class PathCtx:
         self.pc.append(cond)
         self.solver.add(cond)
         try:
-            if not z3.is_quantifier(cond) and _size(cond, 150) <= 150:
+            if not z3.is_quantifier(cond) and _small(cond):
                 self.light.add(cond)
         except z3.Z3Exception:
             pass
@@ -117,7 +117,7 @@ class PathCtx:
     def light_decides(self, cond):
         """True / False if the small facts alone settle cond, else None."""
         try:
-            if _size(cond, 60) > 60:
+            if not _small(cond, 6):
                 return None
             self.light.push()
             self.light.add(z3.Not(cond))
@@ -213,19 +213,6 @@ class PathCtx:
         if isinstance(goal, bool):
             goal = z3.BoolVal(goal)
         status, model = 'unknown', None
-        # fast path: resolve if-then-else terms whose condition is settled by the simple facts of the
-        # path condition, then rewrite; a goal that rewrites to true needs no search at all
-        try:
-            g2 = z3.simplify(resolve_ites(goal, self.pc, light=self.light))
-            if z3.is_true(g2):
-                dt = time.time() - t0
-                self.solver_seconds += dt
-                res = ObligationResult(name, 'proved', None, goal, where, dt, 'z3-rewrite',
-                                       path=[d.choice for d in self.trace[: self.pos]], note=note)
-                self.results.append(res)
-                return res
-        except z3.Z3Exception:
-            pass
         self.solver.push()
         try:
             # first attempt: the path's incremental solver with a short budget; nonlinear queries
@@ -242,6 +229,15 @@ class PathCtx:
             self.solver.pop()
             self.solver.set('timeout', self.timeout_ms)
         backend = 'z3'
+        if status == 'unknown':
+            # resolve if-then-else terms whose condition is settled by the simple facts of the path condition,
+            # then rewrite; a goal that rewrites to true needs no search at all
+            try:
+                g2 = z3.simplify(resolve_ites(goal, self.pc, light=self.light))
+                if z3.is_true(g2):
+                    status, backend = 'proved', 'z3-rewrite'
+            except z3.Z3Exception:
+                pass
         if status == 'unknown':
             status, model, backend = second_opinion(self.pc, goal, self.timeout_ms)
         dt = time.time() - t0
@@ -279,6 +275,14 @@ def prove_from(ctx, name, goal, facts, note=None, timeout_ms=None):
                            path=[d.choice for d in ctx.trace[: ctx.pos]], note=note)
     ctx.results.append(res)
     return res
+
+
+def _small(e, depth=7):
+    """Cheap proxy for 'a small term' (C-side depth computation, no Python traversal)."""
+    try:
+        return z3.Z3_get_depth(e.ctx.ref(), e.as_ast()) <= depth
+    except Exception:   # noqa
+        return False
 
 
 def _size(e, limit=400):
